@@ -96,6 +96,50 @@ func owner(stack string) (who, fn string) {
 	return "unknown", ""
 }
 
+// libFrame returns the innermost library frame of an access stack (function name made canonical), or the
+// innermost frame of all when the stack has no library frame — the rule of mon.ParseRaceLog, plus two
+// normalisations: type parameters are dropped, and a library closure that the compiler inlined into harness code
+// (and therefore named after the harness function, e.g. main.f.WithCustomAuthEndpoint.func3) is named after its
+// package and first exported component.
+func libFrame(stack string) string {
+	first := ""
+	for _, m := range accessFrame.FindAllStringSubmatch(stack, -1) {
+		fn, file := generics.ReplaceAllString(m[1], ""), m[2]
+		if first == "" {
+			first = fn
+		}
+		if !strings.HasPrefix(file, mon.RepoPrefix) {
+			continue
+		}
+		if strings.HasPrefix(fn, "main.") || strings.HasPrefix(fn, "verif/") {
+			parts := strings.Split(fn, ".")
+			for i, p := range parts {
+				if p != "" && p[0] >= 'A' && p[0] <= 'Z' {
+					dir := strings.TrimPrefix(file, mon.RepoPrefix)
+					if j := strings.LastIndex(dir, "/"); j >= 0 {
+						dir = dir[:j]
+					}
+					return "github.com/zitadel/oidc/v3/" + dir + "." + strings.Join(parts[i:], ".")
+				}
+			}
+		}
+		return fn
+	}
+	return first
+}
+
+func raceKey(rr mon.RaceReport, paras []string) string {
+	var fs []string
+	for k := 0; k < 2 && k < len(paras); k++ {
+		fs = append(fs, libFrame(paras[k]))
+	}
+	sort.Strings(fs)
+	if len(fs) == 0 {
+		return generics.ReplaceAllString(rr.Key, "")
+	}
+	return strings.Join(fs, " <-> ")
+}
+
 type raceFinding struct {
 	Key     string   `json:"key"`
 	Owners  []string `json:"owners"`
@@ -167,7 +211,7 @@ func raceCollect(run *ev.Run, replay bool) {
 				harness++
 			}
 		}
-		key := generics.ReplaceAllString(rr.Key, "")
+		key := raceKey(rr, paras)
 		cs := -1
 		if i < len(offsets) {
 			cs = caseOf(offsets[i])
